@@ -44,6 +44,16 @@ def S(lo, hi, flags, pop=2, coord="i32", inject=0, crash=0, cap_s=3000, t=2, ema
     return {"args": a, "label": label or f"seg<{coord}>[{lo},{hi}] pop<={pop}" + (f" inject<={inject}" if inject else "") + (" crash-only" if crash else "")}
 
 
+def F(sys, flags, pay="u16", hint=8, sizes=None, crash=0, label=None):
+    """deterministic family of long histories (trees of 9..120 entries, all insertion/deletion order patterns)"""
+    a = ["family", "--sys", sys, "--pay", pay, "--n", "120", "--t", "5", "--hint", str(hint), "--flags", flags]
+    if sizes:
+        a += ["--sizes", sizes]
+    if crash:
+        a += ["--crash-only", "1"]
+    return {"args": a, "label": label or f"family {sys}<{pay}> sizes {sizes or '9..120'} hint={hint}" + (" crash-only" if crash else "")}
+
+
 def SW(kind, flags="", label=None, as_gb=None, **kw):
     a = ["sweep", "--kind", kind]
     if flags:
@@ -63,65 +73,65 @@ SPECS = {}
 
 # --- expiring-key tree -------------------------------------------------------
 SPECS["C01"] = {
-    "quick": [K("ktree", 3, 3, KA + ",o_pred", tbase=251), K("ktree", 4, 3, KA + ",o_pred"), K("ktree", 3, 3, KA + ",o_pred"), K("ktree", 3, 2, KA + ",o_pred", mode="full"), K("ktree", 8, 0, "fleby,clear,o_pred", mode="shape", label="ktree N=8 T=0 shape (arena growth)")],
-    "thorough": [K("ktree", 4, 4, KA + ",o_pred"), K("ktree", 5, 2, KA + ",o_pred", cap_s=900), K("ktree", 3, 3, KA + ",o_pred", mode="full"),
+    "quick": [F("ktree", "fl,fle,fleby,get,o_pred"), K("ktree", 3, 3, KA + ",o_pred", tbase=251), K("ktree", 4, 3, KA + ",o_pred"), K("ktree", 3, 3, KA + ",o_pred"), K("ktree", 3, 2, KA + ",o_pred", mode="full"), K("ktree", 8, 0, "fleby,clear,o_pred", mode="shape", label="ktree N=8 T=0 shape (arena growth)")],
+    "thorough": [F("ktree", "fl,fle,fleby,get,o_pred"), K("ktree", 4, 4, KA + ",o_pred"), K("ktree", 5, 2, KA + ",o_pred", cap_s=900), K("ktree", 3, 3, KA + ",o_pred", mode="full"),
                  K("ktree", 8, 1, "fle,fleby,clear,o_pred", mode="shape", cap_s=900), K("ktree", 4, 3, KA + ",o_pred", hint=9)],
 }
 SPECS["C06"] = {
-    "quick": [K("ktree", 3, 3, KA + ",o_get", tbase=251), K("ktree", 4, 3, KA + ",o_get"), K("ktree", 3, 3, KA + ",o_get"), K("ktree", 3, 2, KA + ",o_get", mode="full"), K("ktree", 8, 0, "get,clear,o_get", mode="shape")],
-    "thorough": [K("ktree", 4, 4, KA + ",o_get"), K("ktree", 5, 2, KA + ",o_get", cap_s=900), K("ktree", 3, 3, KA + ",o_get", mode="full"), K("ktree", 9, 1, "get,clear,o_get", mode="shape", cap_s=900)],
+    "quick": [F("ktree", "fl,fle,fleby,get,o_get"), K("ktree", 3, 3, KA + ",o_get", tbase=251), K("ktree", 4, 3, KA + ",o_get"), K("ktree", 3, 3, KA + ",o_get"), K("ktree", 3, 2, KA + ",o_get", mode="full"), K("ktree", 8, 0, "get,clear,o_get", mode="shape")],
+    "thorough": [F("ktree", "fl,fle,fleby,get,o_get"), K("ktree", 4, 4, KA + ",o_get"), K("ktree", 5, 2, KA + ",o_get", cap_s=900), K("ktree", 3, 3, KA + ",o_get", mode="full"), K("ktree", 9, 1, "get,clear,o_get", mode="shape", cap_s=900)],
 }
 SPECS["C07"] = {
-    "quick": [K("ktree", 3, 3, KA + ",o_export", tbase=251), K("klist", 3, 3, KA + ",o_export", tbase=251), K("ktree", 4, 2, KA + ",o_export"), K("ktree", 3, 3, KA + ",o_export"), K("klist", 3, 3, KA + ",o_export"), K("ktree", 3, 2, KA + ",o_export", mode="full")],
-    "thorough": [K("ktree", 4, 4, KA + ",o_export", cap_s=1200), K("klist", 4, 4, KA + ",o_export"), K("ktree", 3, 3, KA + ",o_export", mode="full"), K("ktree", 8, 0, "fleby,clear,o_export", mode="shape")],
+    "quick": [F("ktree", "fl,fle,fleby,get,o_export"), F("klist", "fl,fle,fleby,get,o_export"), K("ktree", 3, 3, KA + ",o_export", tbase=251), K("klist", 3, 3, KA + ",o_export", tbase=251), K("ktree", 4, 2, KA + ",o_export"), K("ktree", 3, 3, KA + ",o_export"), K("klist", 3, 3, KA + ",o_export"), K("ktree", 3, 2, KA + ",o_export", mode="full")],
+    "thorough": [F("ktree", "fl,fle,fleby,get,o_export"), F("klist", "fl,fle,fleby,get,o_export"), K("ktree", 4, 4, KA + ",o_export", cap_s=1200), K("klist", 4, 4, KA + ",o_export"), K("ktree", 3, 3, KA + ",o_export", mode="full"), K("ktree", 8, 0, "fleby,clear,o_export", mode="shape")],
 }
 SPECS["C19"] = {
-    "quick": [K("ktree", 4, 2, KA + ",o_cap"), K("ktree", 3, 2, KA + ",o_cap"), K("klist", 3, 2, KA + ",o_cap"), K("ktree", 8, 0, "fleby,clear,o_cap", mode="shape"), SW("export-sizes", kmax=14, as_gb=6)],
-    "thorough": [K("ktree", 4, 3, KA + ",o_cap"), K("ktree", 9, 1, "fleby,o_cap", mode="shape", cap_s=900), SW("export-sizes", kmax=21, list_max=8192, as_gb=8)],
+    "quick": [F("ktree", "fl,fle,fleby,get,o_cap"), F("klist", "fl,fle,fleby,get,o_cap"), K("ktree", 4, 2, KA + ",o_cap"), K("ktree", 3, 2, KA + ",o_cap"), K("klist", 3, 2, KA + ",o_cap"), K("ktree", 8, 0, "fleby,clear,o_cap", mode="shape"), SW("export-sizes", kmax=14, as_gb=6)],
+    "thorough": [F("ktree", "fl,fle,fleby,get,o_cap"), F("klist", "fl,fle,fleby,get,o_cap"), K("ktree", 4, 3, KA + ",o_cap"), K("ktree", 9, 1, "fleby,o_cap", mode="shape", cap_s=900), SW("export-sizes", kmax=21, list_max=8192, as_gb=8)],
 }
 SPECS["C20"] = {
-    "quick": [K("ktree", 3, 3, KA + ",o_log", tbase=251), K("klist", 3, 3, KA + ",o_log", tbase=251), K("ktree", 4, 3, KA + ",o_log"), K("ktree", 3, 3, KA + ",o_log"), K("klist", 3, 3, KA + ",o_log"), K("ktree", 3, 2, KA + ",o_log", mode="full")],
-    "thorough": [K("ktree", 4, 4, KA + ",o_log"), K("klist", 4, 4, KA + ",o_log"), K("ktree", 5, 2, KA + ",o_log", cap_s=900), K("ktree", 8, 0, "fleby,get,clear,o_log", mode="shape")],
+    "quick": [F("ktree", "fl,fle,fleby,get,o_log"), F("klist", "fl,fle,fleby,get,o_log"), K("ktree", 3, 3, KA + ",o_log", tbase=251), K("klist", 3, 3, KA + ",o_log", tbase=251), K("ktree", 4, 3, KA + ",o_log"), K("ktree", 3, 3, KA + ",o_log"), K("klist", 3, 3, KA + ",o_log"), K("ktree", 3, 2, KA + ",o_log", mode="full")],
+    "thorough": [F("ktree", "fl,fle,fleby,get,o_log"), F("klist", "fl,fle,fleby,get,o_log"), K("ktree", 4, 4, KA + ",o_log"), K("klist", 4, 4, KA + ",o_log"), K("ktree", 5, 2, KA + ",o_log", cap_s=900), K("ktree", 8, 0, "fleby,get,clear,o_log", mode="shape")],
 }
 
 # --- map / set ---------------------------------------------------------------
 SPECS["C04"] = {
-    "quick": [M("maptree", 6, MA + ",o_ref"), M("maptree", 4, MAW + ",o_ref", pay="heap", hint=0), M("maptree", 4, MAW + ",o_ref", hint=1),
+    "quick": [F("maptree", MA + ",o_ref"), F("maptree", MA + ",o_ref", pay="heap", hint=0, sizes="9,17,33,65"), M("maptree", 6, MA + ",o_ref"), M("maptree", 4, MAW + ",o_ref", pay="heap", hint=0), M("maptree", 4, MAW + ",o_ref", hint=1),
               M("maptree", 10, "del,clear,o_ref", mode="shape"), M("maptree", 10, "del,clear,o_ref", mode="shape", hint=9), M("maptree", 3, MA + ",o_ref", mode="full"), M("maptree", 3, MAW + ",o_ref", hint=64)],
-    "thorough": [M("maptree", 7, MA + ",o_ref"), M("maptree", 6, MA + ",o_ref", pay="heap", hint=0), M("maptree", 5, MAW + ",o_ref", hint=1),
+    "thorough": [F("maptree", MA + ",o_ref"), F("maptree", MA + ",o_ref", pay="heap", hint=0, sizes="9,17,33,65"), M("maptree", 7, MA + ",o_ref"), M("maptree", 6, MA + ",o_ref", pay="heap", hint=0), M("maptree", 5, MAW + ",o_ref", hint=1),
                  M("maptree", 12, "del,clear,o_ref", mode="shape"), M("maptree", 12, "del,clear,o_ref", mode="shape", hint=9), M("maptree", 4, "del,clear,o_ref", mode="full", max_states=30000000, cap_s=1200), M("maptree", 5, MAW + ",o_ref", hint=64)],
 }
 SPECS["C05"] = {
-    "quick": [M("settree", 6, MA + ",o_ref"), M("settree", 4, MAW + ",o_ref", pay="heap", hint=0), M("settree", 6, MA + ",o_ref", pay="bare", hint=1),
+    "quick": [F("settree", MA + ",o_ref"), F("settree", MA + ",o_ref", pay="heap", hint=0, sizes="9,17,33,65"), M("settree", 6, MA + ",o_ref"), M("settree", 4, MAW + ",o_ref", pay="heap", hint=0), M("settree", 6, MA + ",o_ref", pay="bare", hint=1),
               M("settree", 10, "del,clear,o_ref", mode="shape"), M("settree", 3, MA + ",o_ref", mode="full")],
-    "thorough": [M("settree", 7, MA + ",o_ref"), M("settree", 6, MA + ",o_ref", pay="heap", hint=0), M("settree", 6, MA + ",o_ref", pay="bare", hint=1), M("settree", 5, MAW + ",o_ref", hint=64),
+    "thorough": [F("settree", MA + ",o_ref"), F("settree", MA + ",o_ref", pay="heap", hint=0, sizes="9,17,33,65"), M("settree", 7, MA + ",o_ref"), M("settree", 6, MA + ",o_ref", pay="heap", hint=0), M("settree", 6, MA + ",o_ref", pay="bare", hint=1), M("settree", 5, MAW + ",o_ref", hint=64),
                  M("settree", 12, "del,clear,o_ref", mode="shape", hint=9), M("settree", 4, "del,clear,o_ref", mode="full", max_states=30000000, cap_s=1200)],
 }
 SPECS["C08"] = {
-    "quick": [M("maptree", 6, MA + ",o_handle"), M("settree", 6, MA + ",o_handle"), M("maptree", 4, MAW + ",o_handle,o_ref", pay="heap"), M("settree", 4, MAW + ",o_handle,o_ref"),
+    "quick": [F("maptree", MA + ",o_handle"), F("settree", MA + ",o_handle"), M("maptree", 6, MA + ",o_handle"), M("settree", 6, MA + ",o_handle"), M("maptree", 4, MAW + ",o_handle,o_ref", pay="heap"), M("settree", 4, MAW + ",o_handle,o_ref"),
               M("maptree", 10, "delh,clear,o_handle", mode="shape"), M("settree", 10, "delh,clear,o_handle", mode="shape", hint=9)],
-    "thorough": [M("maptree", 7, MA + ",o_handle"), M("settree", 7, MA + ",o_handle"), M("maptree", 5, MAW + ",o_handle,o_ref", pay="heap"), M("settree", 5, MAW + ",o_handle,o_ref"),
+    "thorough": [F("maptree", MA + ",o_handle"), F("settree", MA + ",o_handle"), M("maptree", 7, MA + ",o_handle"), M("settree", 7, MA + ",o_handle"), M("maptree", 5, MAW + ",o_handle,o_ref", pay="heap"), M("settree", 5, MAW + ",o_handle,o_ref"),
                  M("maptree", 12, "delh,clear,o_handle", mode="shape"), M("settree", 12, "delh,clear,o_handle", mode="shape", hint=9)],
 }
 SPECS["C09"] = {
-    "quick": [M("settree", 6, MA + ",o_neigh"), M("settree", 6, MA + ",o_neigh", pay="bare"), M("settree", 10, "del,clear,o_neigh", mode="shape"), M("settree", 3, MA + ",o_neigh", mode="full")],
-    "thorough": [M("settree", 7, MA + ",o_neigh"), M("settree", 6, MA + ",o_neigh", pay="bare"), M("settree", 12, "del,clear,o_neigh", mode="shape", hint=9), M("settree", 6, MA + ",o_neigh", pay="heap", hint=64)],
+    "quick": [F("settree", MA + ",o_neigh"), M("settree", 6, MA + ",o_neigh"), M("settree", 6, MA + ",o_neigh", pay="bare"), M("settree", 10, "del,clear,o_neigh", mode="shape"), M("settree", 3, MA + ",o_neigh", mode="full")],
+    "thorough": [F("settree", MA + ",o_neigh"), M("settree", 7, MA + ",o_neigh"), M("settree", 6, MA + ",o_neigh", pay="bare"), M("settree", 12, "del,clear,o_neigh", mode="shape", hint=9), M("settree", 6, MA + ",o_neigh", pay="heap", hint=64)],
 }
 SPECS["C17"] = {
-    "quick": [M("maptree", 6, MA + ",o_hstab"), M("settree", 6, MA + ",o_hstab"), M("maptree", 10, "del,clear,o_hstab", mode="shape"), M("settree", 10, "del,clear,o_hstab", mode="shape", hint=9), M("maptree", 4, MAW + ",o_hstab", pay="heap")],
-    "thorough": [M("maptree", 7, MA + ",o_hstab"), M("settree", 7, MA + ",o_hstab"), M("maptree", 12, "del,clear,o_hstab", mode="shape"), M("settree", 12, "del,clear,o_hstab", mode="shape", hint=9), M("maptree", 5, MAW + ",o_hstab", pay="heap", hint=1)],
+    "quick": [F("maptree", MA + ",o_hstab"), F("settree", MA + ",o_hstab", hint=9), M("maptree", 6, MA + ",o_hstab"), M("settree", 6, MA + ",o_hstab"), M("maptree", 10, "del,clear,o_hstab", mode="shape"), M("settree", 10, "del,clear,o_hstab", mode="shape", hint=9), M("maptree", 4, MAW + ",o_hstab", pay="heap")],
+    "thorough": [F("maptree", MA + ",o_hstab"), F("settree", MA + ",o_hstab", hint=9), M("maptree", 7, MA + ",o_hstab"), M("settree", 7, MA + ",o_hstab"), M("maptree", 12, "del,clear,o_hstab", mode="shape"), M("settree", 12, "del,clear,o_hstab", mode="shape", hint=9), M("maptree", 5, MAW + ",o_hstab", pay="heap", hint=1)],
 }
 SPECS["C02"] = {
-    "quick": [K("ktree", 4, 2, KA + ",o_rb"), M("maptree", 6, MA + ",o_rb,histogram"), M("settree", 6, MA + ",o_rb,histogram"), K("ktree", 3, 3, KA + ",o_rb"), M("maptree", 10, "del,clear,o_rb,histogram", mode="shape"), M("settree", 10, "del,clear,o_rb,histogram", mode="shape"), K("ktree", 8, 0, "fleby,clear,o_rb", mode="shape")],
-    "thorough": [M("maptree", 7, MA + ",o_rb,histogram"), M("settree", 7, MA + ",o_rb,histogram"), K("ktree", 4, 4, KA + ",o_rb"), K("ktree", 5, 2, KA + ",o_rb", cap_s=900),
+    "quick": [F("maptree", MA + ",o_rb"), F("settree", MA + ",o_rb"), F("ktree", "fl,fle,fleby,get,o_rb"), K("ktree", 4, 2, KA + ",o_rb"), M("maptree", 6, MA + ",o_rb,histogram"), M("settree", 6, MA + ",o_rb,histogram"), K("ktree", 3, 3, KA + ",o_rb"), M("maptree", 10, "del,clear,o_rb,histogram", mode="shape"), M("settree", 10, "del,clear,o_rb,histogram", mode="shape"), K("ktree", 8, 0, "fleby,clear,o_rb", mode="shape")],
+    "thorough": [F("maptree", MA + ",o_rb"), F("settree", MA + ",o_rb"), F("ktree", "fl,fle,fleby,get,o_rb"), M("maptree", 7, MA + ",o_rb,histogram"), M("settree", 7, MA + ",o_rb,histogram"), K("ktree", 4, 4, KA + ",o_rb"), K("ktree", 5, 2, KA + ",o_rb", cap_s=900),
                  M("maptree", 12, "del,clear,o_rb", mode="shape"), M("settree", 12, "del,clear,o_rb", mode="shape", hint=9), K("ktree", 8, 1, "fle,fleby,clear,o_rb", mode="shape", cap_s=900)],
 }
 SPECS["C11"] = {
-    "quick": [K("ktree", 4, 2, KA + ",o_arena"), M("maptree", 6, MA + ",o_arena"), M("settree", 6, MA + ",o_arena"), K("ktree", 3, 3, KA + ",o_arena"),
+    "quick": [F("maptree", MA + ",o_arena"), F("settree", MA + ",o_arena", hint=9), F("ktree", "fl,fle,fleby,get,o_arena"), F("maptree", MA + ",o_arena", hint=64, sizes="48,64,65,100"), K("ktree", 4, 2, KA + ",o_arena"), M("maptree", 6, MA + ",o_arena"), M("settree", 6, MA + ",o_arena"), K("ktree", 3, 3, KA + ",o_arena"),
               M("maptree", 4, MA + ",o_arena", hint=0), M("settree", 4, MA + ",o_arena", hint=1), K("ktree", 3, 2, KA + ",o_arena", hint=0),
               M("maptree", 10, "del,clear,o_arena", mode="shape"), M("settree", 10, "del,clear,o_arena", mode="shape", hint=9), K("ktree", 8, 0, "fleby,clear,o_arena", mode="shape", hint=9),
               M("maptree", 4, MA + ",o_arena", hint=64), K("ktree", 3, 2, KA + ",o_arena", hint=64)],
-    "thorough": [M("maptree", 7, MA + ",o_arena"), M("settree", 7, MA + ",o_arena"), K("ktree", 4, 4, KA + ",o_arena"),
+    "thorough": [F("maptree", MA + ",o_arena"), F("settree", MA + ",o_arena", hint=9), F("ktree", "fl,fle,fleby,get,o_arena"), F("maptree", MA + ",o_arena", hint=64, sizes="48,64,65,100"), M("maptree", 7, MA + ",o_arena"), M("settree", 7, MA + ",o_arena"), K("ktree", 4, 4, KA + ",o_arena"),
                  M("maptree", 6, MA + ",o_arena", hint=0), M("settree", 6, MA + ",o_arena", hint=1), K("ktree", 4, 3, KA + ",o_arena", hint=1),
                  M("maptree", 12, "del,clear,o_arena", mode="shape"), M("maptree", 12, "del,clear,o_arena", mode="shape", hint=9), M("settree", 12, "del,clear,o_arena", mode="shape", hint=9),
                  K("ktree", 9, 1, "fleby,clear,o_arena", mode="shape", hint=9, cap_s=900), M("settree", 6, MA + ",o_arena", hint=64), K("ktree", 4, 3, KA + ",o_arena", hint=64)],
@@ -137,8 +147,8 @@ SPECS["C12"] = {
 LISTS_M = MAW + ",o_ref,o_handle,o_pos,o_rb,o_neigh"
 LISTS_K = KA + ",o_pred,o_get,o_export,o_log,o_rb"
 SPECS["C13"] = {
-    "quick": [K("klist", 4, 3, LISTS_K, tbase=251), M("maplist", 6, LISTS_M), M("setlist", 6, LISTS_M), M("maplist", 5, LISTS_M, pay="heap", hint=0), K("klist", 4, 4, LISTS_K), K("klist", 3, 3, LISTS_K, hint=0)],
-    "thorough": [M("maplist", 8, LISTS_M), M("setlist", 8, LISTS_M), M("setlist", 6, LISTS_M, pay="heap", hint=0), K("klist", 5, 4, LISTS_K, cap_s=900), K("klist", 4, 5, LISTS_K)],
+    "quick": [F("maplist", LISTS_M, sizes="9,17,33,65"), F("setlist", LISTS_M, sizes="9,17,33,65"), F("klist", "fl,fle,fleby,get,o_pred,o_get,o_export,o_log,o_rb"), K("klist", 4, 3, LISTS_K, tbase=251), M("maplist", 6, LISTS_M), M("setlist", 6, LISTS_M), M("maplist", 5, LISTS_M, pay="heap", hint=0), K("klist", 4, 4, LISTS_K), K("klist", 3, 3, LISTS_K, hint=0)],
+    "thorough": [F("maplist", LISTS_M, sizes="9,17,33,65"), F("setlist", LISTS_M, sizes="9,17,33,65"), F("klist", "fl,fle,fleby,get,o_pred,o_get,o_export,o_log,o_rb"), M("maplist", 8, LISTS_M), M("setlist", 8, LISTS_M), M("setlist", 6, LISTS_M, pay="heap", hint=0), K("klist", 5, 4, LISTS_K, cap_s=900), K("klist", 4, 5, LISTS_K)],
 }
 
 # --- segment tree --------------------------------------------------------------
@@ -174,13 +184,13 @@ SPECS["C18"] = {
 ALL_M = MAW + ",o_ref,o_handle,o_neigh,o_hstab"
 ALL_K = KA + ",o_pred,o_get,o_export"
 SPECS["C10"] = {
-    "quick": [K("ktree", 3, 3, ALL_K, crash=1, tbase=251), K("klist", 3, 3, ALL_K, crash=1, tbase=251), K("ktree", 4, 2, ALL_K, crash=1), M("maptree", 5, ALL_M, crash=1), M("settree", 5, ALL_M, crash=1), M("maplist", 5, ALL_M, crash=1), M("setlist", 5, ALL_M, crash=1),
+    "quick": [F("maptree", ALL_M, crash=1), F("settree", ALL_M, crash=1), F("ktree", "fl,fle,fleby,get,o_pred,o_get,o_export", crash=1), K("ktree", 3, 3, ALL_K, crash=1, tbase=251), K("klist", 3, 3, ALL_K, crash=1, tbase=251), K("ktree", 4, 2, ALL_K, crash=1), M("maptree", 5, ALL_M, crash=1), M("settree", 5, ALL_M, crash=1), M("maplist", 5, ALL_M, crash=1), M("setlist", 5, ALL_M, crash=1),
               M("maptree", 4, ALL_M, crash=1, hint=0, pay="heap"), M("settree", 4, ALL_M, crash=1, hint=1, pay="bare"), M("maptree", 10, "del,delh,clear,o_handle", mode="shape", crash=1, hint=9), M("settree", 10, "del,delh,clear,o_neigh", mode="shape", crash=1, hint=9), M("settree", 3, ALL_M, crash=1, hint=64),
               K("ktree", 3, 3, ALL_K, crash=1), K("klist", 3, 3, ALL_K, crash=1), K("ktree", 3, 2, ALL_K, crash=1, hint=0), K("ktree", 3, 2, ALL_K, crash=1, hint=64), K("ktree", 8, 0, "fleby,get,clear,o_export", mode="shape", crash=1, hint=9),
               S(0, 16, SA + ",o_query", crash=1), S(0, 31, SA + ",o_query", crash=1), S(-7, 92, SA + ",o_query", crash=1), S(-(1 << 31), (1 << 31) - 1, SA + ",o_query", crash=1),
               SW("layout", lmax=600, all_coords=600, label="layout sweep (constructor and edge coordinates, process outcome only)"), SW("dpairs", lo=0, hi=128, label="all insert x query range pairs on [0,128] (process outcome)"),
               SW("niche", type="key", label="KeyExpTree::new with a key type that has no all-zero value"), SW("niche", type="val", label="KeyExpTree::new with a value type that has no all-zero value"), SW("niche", type="list", label="KeyExpList with the same key type")],
-    "thorough": [M("maptree", 7, MA + ",o_ref,o_handle,o_hstab", crash=1), M("settree", 7, MA + ",o_ref,o_handle,o_neigh,o_hstab", crash=1), M("maplist", 7, ALL_M, crash=1), M("setlist", 7, ALL_M, crash=1),
+    "thorough": [F("maptree", ALL_M, crash=1), F("settree", ALL_M, crash=1), F("ktree", "fl,fle,fleby,get,o_pred,o_get,o_export", crash=1), M("maptree", 7, MA + ",o_ref,o_handle,o_hstab", crash=1), M("settree", 7, MA + ",o_ref,o_handle,o_neigh,o_hstab", crash=1), M("maplist", 7, ALL_M, crash=1), M("setlist", 7, ALL_M, crash=1),
                  M("maptree", 5, ALL_M, crash=1, hint=0, pay="heap"), M("settree", 6, ALL_M, crash=1, hint=1, pay="bare"), M("maptree", 12, "del,delh,clear,o_handle", mode="shape", crash=1, hint=9), M("settree", 12, "del,delh,clear,o_neigh", mode="shape", crash=1, hint=9), M("settree", 5, ALL_M, crash=1, hint=64),
                  K("ktree", 4, 4, ALL_K, crash=1, cap_s=1200), K("klist", 4, 4, ALL_K, crash=1), K("ktree", 4, 3, ALL_K, crash=1, hint=0), K("ktree", 3, 3, ALL_K, crash=1, mode="full"), K("ktree", 9, 1, "fleby,get,clear,o_export", mode="shape", crash=1, hint=9, cap_s=900),
                  ] + [S(lo, hi, SA + ",o_query", crash=1) for (lo, hi) in DOMAINS_T] + [S(0, (1 << 32) - 1, SA + ",o_query", crash=1, coord="u32"), S(-(1 << 40), (1 << 40) + 5, SA + ",o_query", crash=1, coord="i64"),
